@@ -15,11 +15,11 @@ class HandoffFamily(Family):
                "the schedule of the two feeding Go routines is left to the Go scheduler (biased by start delays and pauses); the model's observation is schedule-independent (multiset of lines), the ordering clauses are judged on the implementation's file"]
     assumptions = ["observation: the lines of the output file in file order, each decoded strictly as one audit event (unknown fields, trailing data, missing final newline count as torn)",
                    "in-process mode waits until the line buffer is empty and the parser is parked; daemon mode waits for the expected number of lines (8 s), then 30 ms more"]
-    rule = "N sessions (1..40), each an accepted-publickey line on the sshd side and LOGIN + k commands + CRED_DISP on the audit side, fed concurrently by two Go routines (audit records of all sessions interleaved round-robin, bursts), start delays biasing which side goes first; in-process and through the built daemon (output: a regular file; and a FIFO with a slow reader and events larger than PIPE_BUF); non-trivial = at least 2 sessions"
+    rule = "N sessions (1..40), each an accepted-publickey line on the sshd side and LOGIN + k commands + CRED_DISP on the audit side, fed concurrently by two Go routines (audit records of all sessions interleaved round-robin, bursts), start delays biasing which side goes first; in-process and through the built daemon (output: a regular file; and a FIFO with a slow reader and events larger than PIPE_BUF; 64 kB events into a regular file under a sustained stream of failed logins); non-trivial = at least 2 sessions"
 
     def harness_line(self, c):
-        return "%s %s %s %d:%d %d%s" % (c["id"], c["mode"], ",".join("%d:%s:%d:%d" % s for s in c["sessions"]), c["ds"], c["da"], c["seed"],
-                                        (" noise=%d" % c["noise"]) if c.get("noise") else "")
+        return "%s %s %s %d:%d %d%s" % (c["id"], c["mode"], ",".join("%d:%s:%d:%d" % tuple(s) for s in c["sessions"]), c["ds"], c["da"], c["seed"],
+                                        ((" noise=%d" % c["noise"]) if c.get("noise") else "") + ((" big=%d" % c["big"]) if c.get("big") else ""))
 
     def driver_line(self, c, impl_obs):
         s = self.harness_line(c)
@@ -33,8 +33,9 @@ class HandoffFamily(Family):
         return ";".join([t] + its)
 
     def sample(self, c):
-        return {"mode": c["mode"], "sessions": ["pid %d ses %s k %d" % s[:3] for s in c["sessions"]][:6], "n_sessions": len(c["sessions"]),
-                "delay_sshd_us": c["ds"], "delay_audit_us": c["da"], "seed": c["seed"], "failed_logins_interleaved": c.get("noise", 0)}
+        return {"mode": c["mode"], "sessions": ["pid %d ses %s k %d" % tuple(s[:3]) for s in c["sessions"]][:6], "n_sessions": len(c["sessions"]),
+                "delay_sshd_us": c["ds"], "delay_audit_us": c["da"], "seed": c["seed"], "failed_logins_interleaved": c.get("noise", 0),
+                "command_line_bytes": 17 * c["big"] if c.get("big") else (7140 if c["mode"] == "f" else 2)}
 
     def signature(self, c, rec):
         return "%s/%s" % (c["mode"], rec.get("ispec"))
@@ -89,6 +90,14 @@ class HandoffFamily(Family):
                 ss.append((1000 + i, str(1 + i), k, base))
                 base += k + 3
             cs.append({"mode": "f", "sessions": ss, "ds": 0, "da": 0, "seed": rng.below(1 << 30), "noise": noise})
+        # oversized events (64 kB command lines: many PIPE_BUF-sized pieces if the output is ever written piecewise) into a
+        # regular file, while failed logins keep arriving on the other pipeline for the whole time
+        for nsess, k, noise in ([(2, 100, 16000), (2, 120, 14000)] if quick else [(2, 100, 16000), (3, 80, 16000), (2, 150, 20000), (4, 40, 12000)] * 2):
+            ss, base = [], 10
+            for i in range(nsess):
+                ss.append((1000 + i, str(1 + i), k, base))
+                base += k + 3
+            cs.append({"mode": "d", "sessions": ss, "ds": 0, "da": 0, "seed": rng.below(1 << 30), "noise": noise, "big": 3800})
         return cs
 
     def extra_cases(self, rng, n):
